@@ -295,6 +295,7 @@ type cluster struct {
 	wireQ   []*wireMsg
 	timeoutNows []timeoutNowRec
 	probe       *pendingTask
+	blackbox         bool // race tier: no direct reads of node internals
 	strandedDeciding bool // C17 only: report the self-excluded-voter deadlock
 }
 
